@@ -56,7 +56,6 @@ from xonsh.tools import (
     csv_to_set,
     decode_bytes,
     detype,
-    dict_to_str,
     dynamic_cwd_tuple_to_str,
     ensure_string,
     env_path_to_str,
@@ -108,6 +107,7 @@ from xonsh.tools import (
     to_repr_pretty_,
     to_shlvl,
     to_tok_color_dict,
+    tok_color_dict_to_str,
 )
 
 _warned_erasedups = False
@@ -1324,7 +1324,7 @@ class GeneralSetting(Xettings):
     XONSH_STYLE_OVERRIDES = Var(
         is_tok_color_dict,
         to_tok_color_dict,
-        dict_to_str,
+        tok_color_dict_to_str,
         {},
         "A dictionary containing custom prompt_toolkit/pygments style definitions.\n"
         "The following style definitions are supported:\n\n"
@@ -2102,7 +2102,7 @@ class PTKSetting(PromptSetting):  # sub-classing -> sub-group
     PTK_STYLE_OVERRIDES = Var(
         is_tok_color_dict,
         to_tok_color_dict,
-        dict_to_str,
+        tok_color_dict_to_str,
         {},
         "A dictionary containing custom prompt_toolkit style definitions. (deprecated)",
     )
